@@ -102,8 +102,8 @@ def match_close(src, i):
 
 
 def split_top(s, sep=","):
-    """split at top-level separators (brackets (),[],{} and <> of generics respected)."""
-    parts, depth, cur, i = [], 0, [], 0
+    """split at top-level separators (brackets (),[],{} and the <> of generic arguments respected)."""
+    parts, depth, angle, cur, i = [], 0, 0, [], 0
     while i < len(s):
         c = s[i]
         if c == '"':
@@ -118,10 +118,10 @@ def split_top(s, sep=","):
         elif c in ")]}":
             depth -= 1
         elif c == "<" and sep == "," and re.match(r"[A-Za-z_0-9]", s[i - 1:i] or " "):
-            depth += 1
-        elif c == ">" and sep == "," and s[i - 1:i] not in ("-", "=") and depth > 0 and "<" in "".join(cur):
-            depth -= 1
-        if c == sep and depth == 0:
+            angle += 1      # Name<…>: generic arguments
+        elif c == ">" and angle > 0 and s[i - 1:i] not in ("-", "="):
+            angle -= 1
+        if c == sep and depth == 0 and angle == 0:
             parts.append("".join(cur))
             cur = []
         else:
@@ -194,12 +194,12 @@ def parse_defs(path, defs, errs):
         if not mo or not mb:
             errs.append("%s: make_string_str_like! items not understood: %r" % (rel, items))
             continue
-        defs[mo.group(1)] = ("str", rel)
+        defs.setdefault(mo.group(1), []).append(("str", rel))
     # structs
     for m in re.finditer(r"\bpub(?:\s*\(crate\))?\s+struct\s+([A-Za-z0-9_]+)\s*(<\s*([A-Za-z0-9_]+)\s*>)?\s*([({;])", src):
         name, param, opener = m.group(1), m.group(3), m.group(4)
         if opener == ";":
-            defs[name] = ("struct", rel, None, [])
+            defs.setdefault(name, []).append(("struct", rel, None, []))
             continue
         end = match_close(src, m.end() - 1)
         body = src[m.end():end]
@@ -212,7 +212,7 @@ def parse_defs(path, defs, errs):
             fields = parse_fields(body, "%s: struct %s" % (rel, name))
         if param:
             fields = [(f, subst_param(t, param), v) for f, t, v in fields]
-        defs[name] = ("struct", rel, param, fields)
+        defs.setdefault(name, []).append(("struct", rel, param, fields))
     # enums
     for m in re.finditer(r"\bpub(?:\s*\(crate\))?\s+enum\s+([A-Za-z0-9_]+)\s*\{", src):
         name = m.group(1)
@@ -238,7 +238,7 @@ def parse_defs(path, defs, errs):
                 variants.append((vname, "named", [(f, t) for f, t, _ in parse_fields(rest[1:-1], "%s: enum %s::%s" % (rel, name, vname))]))
             else:
                 raise Fail("%s: enum %s: variant %s not understood: %r" % (rel, name, vname, rest))
-        defs[name] = ("enum", rel, variants)
+        defs.setdefault(name, []).append(("enum", rel, variants))
 
 
 def subst_param(t, p):
@@ -292,24 +292,38 @@ def load_defs(errs):
             parse_defs(p, visitor, [])
         except Fail:
             pass  # visitor files are only consulted for names the tree refers to
-    # reachable from ClassFile
-    reach, todo = {}, ["ClassFile"]
-    while todo:
-        n = todo.pop()
-        if n in reach:
-            continue
-        d = tree.get(n) or visitor.get(n)
-        if d is None:
+    # reachable from ClassFile; a name defined in several files (ArrayType) is resolved to the
+    # definition in the file of the type that refers to it, otherwise it must be unique
+    def resolve(n, from_file):
+        cands = tree.get(n) or visitor.get(n) or []
+        same = [d for d in cands if d[1] == from_file]
+        if len(same) == 1:
+            return same[0]
+        if len(cands) == 1:
+            return cands[0]
+        if not cands:
             errs.append("type %s is referenced by the class tree but its definition was not found under duke/src/tree or duke/src/visitor" % n)
+        else:
+            errs.append("type %s (referenced from %s) has %d definitions: %s" % (n, from_file, len(cands), [d[1] for d in cands]))
+        return None
+    reach, todo = {}, [("ClassFile", None)]
+    while todo:
+        n, ff = todo.pop()
+        d = resolve(n, ff)
+        if d is None:
+            continue
+        if n in reach:
+            if reach[n] is not d:
+                errs.append("type name %s resolves to two different definitions (%s, %s)" % (n, reach[n][1], d[1]))
             continue
         reach[n] = d
         if d[0] == "struct":
             for _, t, _ in d[3]:
-                todo += type_names(t)
+                todo += [(x, d[1]) for x in type_names(t)]
         elif d[0] == "enum":
             for _, _, fs in d[2]:
                 for _, t in fs:
-                    todo += type_names(t)
+                    todo += [(x, d[1]) for x in type_names(t)]
     return reach
 
 
@@ -351,6 +365,13 @@ INNER_HELPER = squash("""
         todo!()
     }""")
 INNER_NAME_EXPR = squash("""self.inner_name.map(|inner_name| map_inner_class_name(remapper, &self.inner_class, self.outer_class.as_ref(), &inner_name)).transpose()?""")
+
+ENUM_CONST_LET = squash("""
+    let const_name = match (type_name.parse(), <&FieldNameSlice>::try_from(const_name.as_java_str())) {
+        (Ok(ParsedFieldDescriptor(Type::Object(enum_class))), Ok(field_name)) =>
+            remapper.map_field(&enum_class, field_name, &type_name)?.name.into_inner(),
+        _ => const_name,
+    };""")
 
 FREE_FNS = {
     # name -> list of regexes (on the whitespace-free body) that must all match
@@ -404,6 +425,10 @@ def expr_action(expr, field, ctx):
     """classify one field expression; ctx: with_class (bool), decl (None|'field'|'method'), binder (variable standing for the value)"""
     e = squash(expr)
     v = ctx["binder"](field)          # how the original value is written: self.f or the pattern variable
+    if field in ctx.get("prebound", {}):
+        if e != field:
+            raise Fail("%s.%s: rebound by a let, then not used as such: %s" % (ctx["type"], field, expr.strip()))
+        return ctx["prebound"][field]
     if e == v:
         return "Copied"
     if e in (v + ".remap(remapper)?", "(&" + v + ").remap(remapper)?", v + ".as_ref().remap(remapper)?"):
@@ -523,6 +548,18 @@ def parse_enum_match(body, tname, variants, with_class, rows):
             if sorted(binders) != sorted(f for f, _ in fs):
                 raise Fail("%s: pattern %r must bind exactly the fields of %s" % (tname, p, v))
             ctx = {"type": tname, "variant": v, "with_class": with_class, "binder": (lambda f: f)}
+            if expr.startswith("{"):
+                # a block: recognised `let`s that rebind a payload, then the struct literal
+                if match_close(expr, 0) != len(expr) - 1:
+                    raise Fail("%s: arm %r not understood" % (tname, arm))
+                inner = expr[1:-1].strip()
+                k = inner.find(";")
+                while k >= 0 and inner[:k].count("{") != inner[:k].count("}"):
+                    k = inner.find(";", k + 1)
+                if k < 0 or squash(inner[:k + 1]) != ENUM_CONST_LET or (tname, v) != ("ElementValue", "Enum"):
+                    raise Fail("%s::%s: block arm differs from the recognised enum-constant shape" % (tname, v))
+                ctx["prebound"] = {"const_name": "Remapped (MEnumConst)"}
+                expr = inner[k + 1:].strip()
             parse_struct_literal(expr, v, fs, ctx, rows_variant := [])
             for (_, _, f, t, a) in rows_variant:
                 rows.append((tname, v, f, t, a))
@@ -681,8 +718,9 @@ def emit(defs, impls, rows, consts, digest):
     L = []
     L.append("(* GENERATED by translate/c07_remap_table.py from %s/dukebox/src/remap.rs and %s/duke/src/{tree,visitor} — do not edit." % (REPO, REPO))
     L.append("   sha256(remap.rs) = %s *)" % digest)
+    L.append("From Coq Require Import String.")
     L.append("From FB Require Import C07.Schema.")
-    L.append("Open Scope string_scope.")
+    L.append("Local Open Scope string_scope.")
     L.append("")
     L.append("(* (b) the class tree: every type reachable from ClassFile, in name order *)")
     L.append("Definition type_defs : list tdef := [")
